@@ -28,14 +28,19 @@ def slots(J):
 
 def offers(J):
     lits = sorted({l for d in J['st'].values() for l in d['enum']})
-    return lits + [-1, 0, 1, 2, 200, 0.5, 1.5, '', 'x']
+    return lits + [-1, 0, 1, 2, 200, 0.5, 1.5, '', 'x', 1.0, 2.0, 0.0, True, False]
 
 
-def probe(F, slot, vals):
+def probe(F, slot, vals, rev=False):
     kind, elem, an = slot
     bits = []
+    order = list(range(len(vals)))
+    if rev:
+        order.reverse()        # the accept/reject of a value must not depend on which values were offered before it
+    out = {}
     cls, value, kwargs, kids = F.plan(elem, lenient=True)
-    for v in vals:
+    for i in order:
+        v = vals[i]
         try:
             with contextlib.redirect_stdout(io.StringIO()):
                 if kind == 'text':
@@ -44,9 +49,10 @@ def probe(F, slot, vals):
                     kw = dict(kwargs)
                     kw[an.replace('-', '_')] = v
                     cls(value, **kw) if value != '' else cls(**kw)
-            bits.append('1')
+            out[i] = '1'
         except Exception:  # noqa
-            bits.append('0')
+            out[i] = '0'
+    bits = [out[i] for i in range(len(vals))]
     return hashlib.sha1(''.join(bits).encode()).hexdigest()[:12]
 
 
@@ -89,7 +95,7 @@ def main():
         if mode == 'pristine':
             out[st] = in_child(lambda: probe(F, S[st], vals))
         else:
-            out[st] = probe(F, S[st], vals)
+            out[st] = probe(F, S[st], vals, rev=(mode == 'reversed'))
     json.dump(dict(mode=mode, digests=out, offers=len(vals)), open(sys.argv[2], 'w'))
     print(json.dumps(dict(types=len(out), offers=len(vals))))
 
